@@ -19,6 +19,7 @@ pub mod conv;
 pub mod wav;
 pub mod hampel;
 pub mod c01;
+pub mod reg;
 
 pub fn lookup(id: &str) -> Option<Prop> {
     Some(match id {
@@ -39,6 +40,8 @@ pub fn lookup(id: &str) -> Option<Prop> {
         "C16" => Prop { header: smooth::H16, generate: smooth::gen16, exec: smooth::exec16 },
         "C18" => Prop { header: hampel::HEADER, generate: hampel::generate, exec: hampel::exec },
         "C01" => Prop { header: c01::HEADER, generate: c01::generate, exec: c01::exec },
+        "C12" => Prop { header: reg::H12, generate: reg::gen12, exec: reg::exec12 },
+        "C20" => Prop { header: reg::H20, generate: reg::gen20, exec: reg::exec20 },
         _ => return None,
     })
 }
